@@ -513,9 +513,9 @@ class Persona(object):
         if b == 'hdhp_plan_family':
             return self.hsa_family and (getattr(self, 'hsa_family_both', False) or not (self.hsa_you and self.hsa_spouse))
         if b == 'hsa_contributions':
-            return round(r.uniform(100, 3000), 2)
+            return getattr(self, 'hsa_own', None) if getattr(self, 'hsa_own', None) is not None else round(r.uniform(100, 3000), 2)
         if b == 'employer_contribution':
-            return round(r.choice([0, r.uniform(0, 500)]), 2)
+            return getattr(self, 'hsa_employer', None) if getattr(self, 'hsa_employer', None) is not None else round(r.choice([0, r.uniform(0, 500)]), 2)
         return None
 
     def _f_8606(self, b, inst, inp, r):
@@ -578,7 +578,7 @@ class Persona(object):
 
 
 # ----------------------------------------------------------------------
-def solve_persona(p, tracer=None, schedule_seed=None, file_map=None, refuse_from=None, forms=None, extra_answer=None, input_path=None, then_request=None):
+def solve_persona(p, tracer=None, schedule_seed=None, file_map=None, refuse_from=None, forms=None, extra_answer=None, input_path=None, then_request=None, field_names=()):
     """Run the real solver for persona p, answering by demand.  refuse_from=k:
     the user answers k questions and refuses afterwards."""
     classes = hx.catalogue(p.year)
@@ -595,7 +595,7 @@ def solve_persona(p, tracer=None, schedule_seed=None, file_map=None, refuse_from
                 p.answers[missing.name()] = t
                 return t
         return p.answer(missing)
-    out = drive.run_solver(classes, cp, forms or p.forms(), answer=answer, schedule_seed=schedule_seed, tracer=tracer, then_request=then_request)
+    out = drive.run_solver(classes, cp, forms or p.forms(), answer=answer, schedule_seed=schedule_seed, tracer=tracer, then_request=then_request, field_names=field_names)
     out.persona = p
     return out
 
@@ -690,6 +690,10 @@ def directed_personas(year, seed, n):
         p = plain_persona(year, 'S', round(r.uniform(50000, 90000), 2), key=f'dirhsapy:{seed}:{k}', hsa_you=True, hsa_family=False, s1_adjust=True)
         p.hsa_part_year = True
         out.append(('F4y', p))
+        # the employer (cafeteria plan, W-2 box 12 code W) put in more than the year's limit, or exactly the limit; nothing of the filer's own
+        p = plain_persona(year, 'S', round(r.uniform(50000, 90000), 2), key=f'dirhsaemp:{seed}:{k}', hsa_you=True, hsa_family=False, s1_adjust=True)
+        p.hsa_own, p.hsa_employer = 0.0, float(_stat.amount('hsa_limit_self', year, 'S')) + (150.0 if k % 2 == 0 else 0.0)
+        out.append(('F4e', p))
         # the same with family coverage (both spouses on a family plan: the limit is shared)
         p = plain_persona(year, 'MFJ', [round(r.uniform(50000, 90000), 2), round(r.uniform(30000, 60000), 2)], key=f'dirhsaf:{seed}:{k}',
                                hsa_you=True, hsa_spouse=True, hsa_family=True, s1_adjust=True)
@@ -728,6 +732,13 @@ def directed_personas(year, seed, n):
         for d in p.w2:      # the employer withholds the additional 0.9 % above 200,000
             d['box_6'] = round(d['box_5'] * 0.0145 + max(0.0, d['box_5'] - 200000.0) * 0.009, 2)
         out.append(('F6r', p))
+        # a joint return where ONE employer paid more than 200,000 (and withheld the additional 0.9 % above it) while the couple's
+        # Medicare wages stay below the joint threshold of 250,000: Form 8959 is required for the withholding, no additional tax is due
+        w1 = round(r.uniform(205000, 235000), 2)
+        p = plain_persona(year, 'MFJ', [w1, round(r.uniform(5000, 250000 - w1 - 100), 2)], key=f'dirjoint8959:{seed}:{k}')
+        for d in p.w2:
+            d['box_6'] = round(d['box_5'] * 0.0145 + max(0.0, d['box_5'] - 200000.0) * 0.009, 2)
+        out.append(('F6j', p))
         # Roth distributions (Form 8606 part III) next to a traditional IRA distribution
         p = plain_persona(year, 'S', round(r.uniform(50000, 90000), 2), key=f'dirroth:{seed}:{k}')
         p.n_1099r = 1
